@@ -1051,9 +1051,35 @@ func genStale(rng *rand.Rand) hlib.History {
 	return h
 }
 
+// genBoundary: a batch of good responses in the middle of a second; just under ten seconds later a failed response, and a
+// few hundred milliseconds after that — across a whole-second boundary, into the slot the old batch sits in — another
+// one. The batch has left the ten-second window: only the failures count, the breaker trips.
+func genBoundary(rng *rand.Rand) hlib.History {
+	var h hlib.History
+	t0 := int64(1600000000)*second + rng.Int63n(20)*second + second/2
+	e := &ex{kind: 2, op: 2, metric: 0, tn: hlib.Pick(rng, 3000, 5000, 8000), td: 10000} // NetworkErrorRatio() > x
+	h.Cfg = append([]int64{t0, hlib.Pick(rng, second, 10*second), hlib.Pick(rng, second, 10*second), hlib.Pick(rng, 0, 1000000)}, e.encode(nil)...)
+	n := 3 + rng.Intn(20)
+	for i := 0; i < n; i++ {
+		h.Ops = append(h.Ops, []int64{0, 2}, []int64{1, 0, 200, 2})
+	}
+	h.Ops = append(h.Ops, []int64{2, 9*second + hlib.Pick(rng, 300, 400, 450)*1000000})
+	h.Ops = append(h.Ops, []int64{0, 2}, []int64{1, 0, 502, 2})
+	h.Ops = append(h.Ops, []int64{2, hlib.Pick(rng, 100, 200, 250, 600) * 1000000})
+	h.Ops = append(h.Ops, []int64{0, 2}, []int64{1, 0, hlib.Pick(rng, 502, 504), 2})
+	for i := 0; i < 3; i++ {
+		h.Ops = append(h.Ops, []int64{2, hlib.Pick(rng, 1000000, 300*1000000)}, []int64{0, 2}, []int64{1, 0, 502, 2})
+	}
+	return h
+}
+
 func (c *cbComp) Gen(rng *rand.Rand, idx int, tier string, targeted bool) hlib.History {
 	if (targeted && rng.Intn(2) == 0) || (!targeted && rng.Intn(4) == 0) {
 		return genStale(rng)
+	}
+	if rng.Intn(12) == 0 {
+		hlib.Count("window_boundary_histories", 1)
+		return genBoundary(rng)
 	}
 	var h hlib.History
 	t0 := int64(1600000000)*second + rng.Int63n(20*second)
